@@ -13,12 +13,17 @@ package c11
 //     is poisoned and creates nothing, as a GCS writer), a failing Writer open, a failing Exists, a
 //     failing Reader, or a crash (panic with a crashSignal) right after the k-th completed write.
 //
+// compFaults / fsigner / fmanager do the same for the operation's other two collaborators: they
+// count the calls to the signer and the key manager and fail one of them (comp_test.go).
+//
 // As in rotsim.RecStore the bytes reach the base client only when the writer is closed: crash
 // points are taken at object granularity (see verif.json assumptions).
 
 import (
 	"bytes"
 	"context"
+	"crypto"
+	"crypto/x509"
 	"errors"
 	"fmt"
 	"io"
@@ -30,6 +35,7 @@ import (
 
 	"github.com/google/gce-tcb-verifier/cmd/output"
 	"github.com/google/gce-tcb-verifier/keys"
+	styp "github.com/google/gce-tcb-verifier/sign/types"
 	"github.com/google/gce-tcb-verifier/storage/local"
 	"github.com/google/gce-tcb-verifier/storage/storagei"
 	"github.com/google/gce-tcb-verifier/testing/nonprod/localkm"
@@ -49,6 +55,9 @@ const (
 	fExistsError    = "exists-error"
 	fReaderError    = "reader-error"
 	fCrash          = "crash"
+	// fComponentError: the Index-th call to the signer / key manager (counted from 0 over the
+	// operation, at the keys.Context boundary) returns an error without being performed.
+	fComponentError = "component-error"
 )
 
 // writeFaultKinds are indexed by object-write attempt (Writer calls, counted from 0).
@@ -366,8 +375,99 @@ func sameObjects(a, b map[string][]byte) bool {
 // world is one process's worth of fresh components whose authority writes through an fstore.
 type world struct {
 	*rotsim.World
-	fs  *fstore
-	pre map[string][]byte
+	fs   *fstore
+	comp *compFaults
+	pre  map[string][]byte
+}
+
+// compFaults counts the calls that an operation makes to its two other collaborators - the signer
+// (Sign, PublicKey) and the key manager (key creation, certificate template, key destruction) - at
+// the keys.Context boundary, and makes the FailAt-th of them return an error without being
+// performed (the service is unavailable or refuses). Calls that the key manager makes to the
+// signer behind that boundary are its own business and not counted.
+type compFaults struct {
+	mu     sync.Mutex
+	FailAt int
+	Calls  []string
+	Fired  string // the call that was failed
+}
+
+func (c *compFaults) enter(call string) error {
+	c.mu.Lock()
+	defer c.mu.Unlock()
+	idx := len(c.Calls)
+	c.Calls = append(c.Calls, call)
+	if idx == c.FailAt {
+		c.Fired = call
+		return fmt.Errorf("%s: %w", call, errInjected)
+	}
+	return nil
+}
+
+type fsigner struct {
+	c     *compFaults
+	inner styp.Signer
+}
+
+func (s *fsigner) Sign(ctx context.Context, keyName string, digest styp.Digest, opts crypto.SignerOpts) ([]byte, error) {
+	if err := s.c.enter("signer.Sign"); err != nil {
+		return nil, err
+	}
+	return s.inner.Sign(ctx, keyName, digest, opts)
+}
+
+func (s *fsigner) PublicKey(ctx context.Context, keyName string) ([]byte, error) {
+	if err := s.c.enter("signer.PublicKey"); err != nil {
+		return nil, err
+	}
+	return s.inner.PublicKey(ctx, keyName)
+}
+
+type fmanager struct {
+	c     *compFaults
+	inner keys.ManagerInterface
+}
+
+func (m *fmanager) CreateFirstSigningKey(ctx context.Context) (string, error) {
+	if err := m.c.enter("manager.CreateFirstSigningKey"); err != nil {
+		return "", err
+	}
+	return m.inner.CreateFirstSigningKey(ctx)
+}
+
+func (m *fmanager) CreateNewSigningKeyVersion(ctx context.Context) (string, error) {
+	if err := m.c.enter("manager.CreateNewSigningKeyVersion"); err != nil {
+		return "", err
+	}
+	return m.inner.CreateNewSigningKeyVersion(ctx)
+}
+
+func (m *fmanager) CreateNewRootKey(ctx context.Context) (string, error) {
+	if err := m.c.enter("manager.CreateNewRootKey"); err != nil {
+		return "", err
+	}
+	return m.inner.CreateNewRootKey(ctx)
+}
+
+func (m *fmanager) CertificateTemplate(ctx context.Context, issuer *x509.Certificate, subjectPubKey any) (*x509.Certificate, error) {
+	if err := m.c.enter("manager.CertificateTemplate"); err != nil {
+		return nil, err
+	}
+	return m.inner.CertificateTemplate(ctx, issuer, subjectPubKey)
+}
+
+func (m *fmanager) DestroyKeyVersion(ctx context.Context, keyVersionName string) error {
+	if err := m.c.enter("manager.DestroyKeyVersion"); err != nil {
+		return err
+	}
+	return m.inner.DestroyKeyVersion(ctx, keyVersionName)
+}
+
+func (m *fmanager) Wipeout(ctx context.Context) error {
+	if err := m.c.enter("manager.Wipeout"); err != nil {
+		return err
+	}
+	return m.inner.Wipeout(ctx)
 }
 
 func build(d *rotsim.Durable, h *history) *world {
@@ -397,7 +497,7 @@ func build(d *rotsim.Durable, h *history) *world {
 			panic(fmt.Sprintf("harness: unknown key manager %T", m))
 		}
 	}
-	w := &world{World: rw, fs: s, pre: s.content()}
+	w := &world{World: rw, fs: s, comp: &compFaults{FailAt: -1}, pre: s.content()}
 	if !sameObjects(w.pre, d.Objects) {
 		panic("harness: a freshly built store does not hold the durable objects")
 	}
@@ -406,7 +506,8 @@ func build(d *rotsim.Durable, h *history) *world {
 
 func (w *world) context(o opSpec) context.Context {
 	ctx := output.NewContext(context.Background(), &output.Options{Quiet: true, Overwrite: o.Overwrite, KeepGoing: o.KeepGoing})
-	return keys.NewContext(ctx, &keys.Context{CA: w.CA, Manager: w.Manager, Signer: w.Signer, Random: w.Rand})
+	// the operation sees the signer and the key manager through the counting / failing wrappers
+	return keys.NewContext(ctx, &keys.Context{CA: w.CA, Manager: &fmanager{c: w.comp, inner: w.Manager}, Signer: &fsigner{c: w.comp, inner: w.Signer}, Random: w.Rand})
 }
 
 // durable is what survives if the process died now: the key manager's keys and the REAL content
